@@ -18,7 +18,7 @@ EXPLANATION = (
     " (R6) sibling agreement of the binning functions: every value that reg2bin (indexer side) and reg2bins (query side) shift right and that derives from `start` / `end` has passed through exactly one `- 1`, i.e. both use the same 0-based closed interval."
     " (R7) unmapped queries test every record: in all six query_unmapped implementations the closure performing the is_unmapped() test is handed to a per-record combinator, never to a prefix combinator such as skip_while."
     " (R8) presence table (A11): the `(Interval) -> bool` shortcut of each query filter that skips the span test is false whenever a bound is present; the table is computed from the MIR over {None, Some} x {None, Some}, rows with an unmodelled construct are not decided."
-    " (R9) every chunk is entered through a seek: in both chunk readers (csi::io::Query, sync and async) State::Read is constructed only behind a seek of the reader to the chunk start.")
+    " (R9) every chunk is entered through a seek: in both chunk readers (csi::io::Query, sync and async) State::Read is constructed only behind a seek of the reader to the chunk start. (R10) completeness: the four sync query::next_record loops report Ok(0) only behind the exhausted chunk reader.")
 ASSUMPTIONS = ["Interval::intersects and Position arithmetic in noodles-core are correct (unit-tested, value-level)"]
 NOT_DECIDED = ["completeness/soundness of reg2bin/reg2bins, chunk merging and min_offset pruning for every layout x region (the core of C04)",
                "that the chunks produced by the indexers are the true file ranges of the records",
